@@ -42,7 +42,7 @@ pub mod sc {
     pub open spec fn escape_rel(b: Seq<u8>, o: int, p: crate::eval::EvalPart<&str>, e: int) -> bool {
         let c = b[o];
         match p {
-            crate::eval::EvalPart::Literal(t) => (c == 10u8 && crate::vx_utf8(t@).len() == 0)
+            crate::eval::EvalPart::Literal(t) => (c == 10u8 && crate::vx_utf8(t@).len() == 0 && b[e] != 32u8 && (forall|j: int| o + 1 <= j < e ==> #[trigger] b[j] == 32u8))
                 || ((c == 32u8 || c == 36u8 || c == 58u8) && e == o + 1 && crate::vx_utf8(t@) == b.subrange(o, o + 1)),
             crate::eval::EvalPart::VarRef(t) => (c == 123u8 && e >= o + 2 && b[e - 1] == 125u8 && crate::vx_utf8(t@) == b.subrange(o + 1, e - 1)
                     && forall|j: int| o + 1 <= j < e - 1 ==> #[trigger] b[j] != 125u8 && b[j] != 0u8)
